@@ -224,8 +224,20 @@ def rule_gr4(prog, G):
         ns = prog.namespace(f.module)
         pb = ns.get('Parser')
         ok = isinstance(pb, ClassInfo) and pb is G[lang].parser_cls
-        calls = [n for n in ast.walk(f.node) if isinstance(n, ast.Call) and
-                 isinstance(n.func, ast.Name) and n.func.id == 'Parser']
+        # the default parser is constructed by modelcheck or by a helper
+        # of its module it calls (closure over same-module callees)
+        seen, todo, calls = set(), [f], []
+        while todo:
+            g = todo.pop()
+            if g.qn in seen:
+                continue
+            seen.add(g.qn)
+            for n in ast.walk(g.node):
+                if isinstance(n, ast.Call) and isinstance(n.func, ast.Name):
+                    if n.func.id == 'Parser':
+                        calls.append(n)
+                    elif n.func.id in f.module.funcs:
+                        todo.append(f.module.funcs[n.func.id])
         r.inst(entry=f.short(), default_parser=pb.short() if isinstance(
             pb, ClassInfo) else repr(pb), constructs_it=bool(calls))
         if ok and calls:
